@@ -548,7 +548,11 @@ func (s *inProcessServerStream) finish(err error) {
 	s.trailers = nil
 
 	if err != nil {
-		_ = writeMessage(s.ctx, nil, s.responses, frame{err: err})
+		// report what a standard server would: context errors with their code, any
+		// other non-status error (notably io.EOF, which the client would mistake
+		// for a clean end of stream) as Unknown
+		st, _ := status.FromError(internal.TranslateContextError(err))
+		_ = writeMessage(s.ctx, nil, s.responses, frame{err: st.Err()})
 	}
 }
 
